@@ -451,6 +451,20 @@ func TestC05Reconnect(t *testing.T) {
 				s.AliasFromZero = true
 			}
 		}
+		if s.PingMs >= 10000 {
+			// the slow keepalive is combined with plain outages only: every further silent failure (a second failure
+			// armed on the retry's link, a cut resume) adds a full minute of detection time to the history, and the
+			// harness' waits between its phases are laid out for outages that are noticed within a second
+			plain := len(s.Faults) == 1 && s.SlowLog == "" && s.SlowHandler == ""
+			for _, f := range s.Faults {
+				if len(f.NextLink) > 0 || f.CutResumeOf > 0 || f.RefuseResumeOf > 0 {
+					plain = false
+				}
+			}
+			if !plain {
+				s.PingMs = 500
+			}
+		}
 		return runCase(c, s, Judge)
 	})
 }
